@@ -13,6 +13,11 @@ import (
 // runs its own statement parser (Model/ParserStmt.lean) and then the function under test on the tree it built.
 //
 //	priv.text s:<statement text> l:<lower table>      ParseStatement(text).RequiredPrivileges()   (C19)
+//	columns.text s:<SELECT text> <omitTime 0|1> s:<timeAlias> l:<lower table> [colCase arguments]
+//	                                                  ParseStatement(text), OmitTime / TimeAlias set, ColumnNames()   (C20)
+//
+// The trailing colCase arguments of columns.text (the case of columns.names the text was rendered from) are read
+// by the property oracle only: neither the model nor the implementation runner looks at them.
 
 func privLine(ps influxql.ExecutionPrivileges) string {
 	var b strings.Builder
@@ -84,7 +89,96 @@ func privTextAdapter(args []string) []string {
 	return privCase(text)
 }
 
+// ---- columns.text (C20) ----
+
+func implColumnsText(args []string) string {
+	if len(args) < 4 || (args[1] != "0" && args[1] != "1") {
+		return "bad-arg"
+	}
+	text, err := decStr(args[0])
+	if err != nil {
+		return "bad-arg"
+	}
+	timeAlias, err := decStr(args[2])
+	if err != nil {
+		return "bad-arg"
+	}
+	if longNumberLiteral(text) {
+		return "skip-float-precision"
+	}
+	st, err := influxql.ParseStatement(text)
+	if err != nil {
+		return errLine(err)
+	}
+	sel, ok := st.(*influxql.SelectStatement)
+	if !ok {
+		return "not-select"
+	}
+	sel.OmitTime = args[1] == "1"
+	sel.TimeAlias = timeAlias
+	names := sel.ColumnNames()
+	var b strings.Builder
+	b.WriteString("ok " + strconv.Itoa(len(names)))
+	for _, n := range names {
+		b.WriteString(" " + encStr(n))
+	}
+	return b.String()
+}
+
+// genColumnsText: the cases of genColumnNames rendered as statement texts (colCase.text()), one in eight with
+// more of a statement around the field list (sources with databases, subqueries, WHERE, GROUP BY, LIMIT: the
+// SELECTs of the C19 generator, whose fields are references, arithmetic, aliases and aggregate calls) and a few
+// statements that are not a SELECT.
+func genColumnsText(r *rand.Rand, n int, emit func(args ...string)) {
+	flag := func(b bool) string {
+		if b {
+			return "1"
+		}
+		return "0"
+	}
+	genColumnNames(r, n, func(args ...string) {
+		c, err := decColCase(args)
+		if err != nil {
+			return
+		}
+		text := c.text()
+		extra := args
+		switch r.Intn(40) {
+		case 0, 1, 2, 3:
+			text, extra = privSelect(r, 0, 3, r.Intn(3) == 0, r.Intn(2) == 0), nil
+		case 4:
+			text, extra = strings.TrimSuffix(text, " FROM m")+" FROM "+privSources(r, 0, 2, true, true)+" WHERE host = 'a' GROUP BY host LIMIT 3", nil
+		case 5:
+			text, extra = pick(r, []string{"SHOW DATABASES", "EXPLAIN " + text, "DROP MEASUREMENT m", "SELECT", ""}), nil
+		}
+		emit(append([]string{encStr(text), flag(c.omitTime), encStr(c.timeAlias), encLower(text)}, extra...)...)
+	})
+}
+
 func init() {
+	register(&stream{name: "columns.text", gen: genColumnsText, impl: implColumnsText,
+		prop: func(args []string) string {
+			if len(args) < 8 {
+				return "skip"
+			}
+			return propColumnNames(args[4:])
+		},
+		class: func(args []string, out string) string {
+			switch {
+			case strings.HasPrefix(out, "ok"):
+				if len(args) < 8 {
+					return "ok:wider-statement"
+				}
+				return "ok"
+			case strings.HasPrefix(out, "err"):
+				return "statement-rejected"
+			case strings.HasPrefix(out, "skip"):
+				return "skip"
+			}
+			return out
+		},
+		nontrivial: func(args []string, out string) bool { return strings.HasPrefix(out, "ok") }})
+
 	register(&stream{name: "priv.text", gen: genPrivText, impl: implPrivText,
 		prop: func(args []string) string {
 			a := privTextAdapter(args)
